@@ -86,6 +86,8 @@ fn scores(n: u32, rich: bool) -> Vec<Score> {
         Score { misses: Some(2), ..Score::none() },
         Score { n100: Some(1), ..Score::none() },
         Score { acc: Some(90.0), worst: true, ..Score::none() },
+        Score { worst: true, ..Score::none() },
+        Score { worst: true, misses: Some(1), ..Score::none() },
         Score { ticks: Some((0, 0, 0)), n300: Some(n), ..Score::none() },
     ];
     if rich {
@@ -243,6 +245,27 @@ fn main() {
                             )
                         });
                         return;
+                    }
+                    // converts: the whole configuration applied to the calculator of the *source* map, then the mode switch
+                    if u.cfg.src != u.cfg.dst {
+                        let mode = gen::game_mode(u.cfg.dst);
+                        let via_try = sc.apply(Performance::new(&map).difficulty(d.clone())).try_mode(mode).ok().map(Performance::calculate);
+                        let via_ignore = sc.apply(Performance::new(&map).difficulty(d.clone())).mode_or_ignore(mode).calculate();
+                        let via_osu = sc.apply(Performance::Osu(OsuPerformance::new(&map)).difficulty(d.clone())).try_mode(mode).ok().map(Performance::calculate);
+                        l.checked(3);
+                        for (ename, got) in [("configured, then try_mode", via_try), ("configured, then mode_or_ignore", Some(via_ignore)), ("OsuPerformance configured, then try_mode", via_osu)] {
+                            if !got.as_ref().is_some_and(|g| same(g, &reference)) {
+                                l.violation("configured_then_switched", || {
+                                    format!(
+                                        "cfg={:?}\nspec={}\ndifficulty={dname}\nscore={sc:?}\n{ename}: the calculator of the source map, fully configured and then switched to {mode:?}, differs from the same configuration on the converted map\n switched : {got:?}\n reference: {reference:?}\n--- .osu ---\n{}",
+                                        u.cfg,
+                                        spec.describe(),
+                                        spec.text()
+                                    )
+                                });
+                                return;
+                            }
+                        }
                     }
                     // generation 1: attributes from the one-shot calculations; generation 2: attributes from a generation-1 result
                     let mut pattrs = reference.clone();
